@@ -91,7 +91,88 @@ func genCase(r *gen.Rand, i int) any {
 			c.Query = append(c.Query, KV{k, gen.Pick(r, pool[k])})
 		}
 	}
+	// multi-valued addr lists mixing hosted, host-less and port-less entries in any order
+	if r.Chance(1, 3) {
+		n := r.Range(2, 4)
+		at := r.Intn(len(c.Query) + 1)
+		var list []KV
+		for i := 0; i < n; i++ {
+			var v string
+			switch r.Intn(7) {
+			case 0, 1, 2:
+				v = gen.Pick(r, hostedAddrs)
+			case 3, 4:
+				v = gen.Pick(r, hostlessAddrs)
+			default:
+				v = gen.Pick(r, portlessAddrs)
+			}
+			list = append(list, KV{"addr", v})
+		}
+		c.Query = append(c.Query[:at:at], append(list, c.Query[at:]...)...)
+	}
 	return c
+}
+
+var hostedAddrs = []string{"h2:6380", "h3:1", "10.0.0.2:9", "[::2]:1", "[fe80::1]:6390"}
+var hostlessAddrs = []string{":6381", ":7", ":6379"}
+var portlessAddrs = []string{"h4", "10.0.0.4", "[::3]", ""}
+
+// readAddr is an independent reading of "host:port", "[v6]:port", ":port", "host", "[v6]", "".
+func readAddr(a string) (host, port string, hasPort bool) {
+	if strings.HasPrefix(a, "[") {
+		if i := strings.Index(a, "]"); i >= 0 {
+			host = a[1:i]
+			if rest := a[i+1:]; strings.HasPrefix(rest, ":") {
+				return host, rest[1:], true
+			}
+			return host, "", false
+		}
+		return a, "", false
+	}
+	switch strings.Count(a, ":") {
+	case 0:
+		return a, "", false
+	case 1:
+		i := strings.Index(a, ":")
+		return a[:i], a[i+1:], true
+	}
+	return a, "", false // bare IPv6 without port
+}
+
+// wantAddr: the documented rule — an entry without a host takes the URL's host (localhost if there is none), an entry
+// without a port takes 6379.
+func wantAddr(urlHost, a string) string {
+	def, _, _ := readAddr(urlHost)
+	if def == "" {
+		def = "localhost"
+	}
+	h, p, _ := readAddr(a)
+	if h == "" {
+		h = def
+	}
+	if p == "" {
+		p = "6379"
+	}
+	if strings.Contains(h, ":") {
+		return "[" + h + "]:" + p
+	}
+	return h + ":" + p
+}
+
+// classes of the two known deviations of the addr mapping (see known_findings.d/acc.json)
+var knownAddrClass = map[string]bool{"addr-portless-entry": true, "addr-default-host-not-hostname": true}
+
+func addrClass(urlHost, a string) string {
+	_, _, hasPort := readAddr(a)
+	_, _, urlHasPort := readAddr(urlHost)
+	h, _, _ := readAddr(a)
+	switch {
+	case !hasPort && a != "":
+		return "addr-portless-entry"
+	case h == "" && (urlHasPort || strings.HasPrefix(urlHost, "[")):
+		return "addr-default-host-not-hostname"
+	}
+	return "addr"
 }
 
 func (c Case) text() string {
@@ -254,7 +335,8 @@ func run(ci any) (res obs.Result) {
 	okScheme := map[string]bool{"redis": true, "rediss": true, "valkey": true, "valkeys": true, "unix": true}[scheme]
 	isTLS := scheme == "rediss" || scheme == "valkeys"
 	fail := func(class, f string, a ...any) {
-		if res.Oracle == "" {
+		// the first failure is reported; a failure outside the known classes takes precedence over a known one
+		if res.Oracle == "" || (knownAddrClass[res.Class] && !knownAddrClass[class]) {
 			res.Oracle, res.Class = fmt.Sprintf(f, a...), class
 		}
 	}
@@ -340,10 +422,8 @@ func run(ci any) (res obs.Result) {
 	for _, kv := range c.Query {
 		if kv.K == "addr" {
 			naddr++
-			if h, p, e := net.SplitHostPort(kv.V); e == nil && h != "" && p != "" {
-				if len(opt.InitAddress) <= naddr || opt.InitAddress[naddr] != net.JoinHostPort(h, p) {
-					fail("addr", "addr %q not at InitAddress[%d]: %v", kv.V, naddr, opt.InitAddress)
-				}
+			if want := wantAddr(c.Host, kv.V); len(opt.InitAddress) <= naddr || opt.InitAddress[naddr] != want {
+				fail(addrClass(c.Host, kv.V), "addr entry %d %q: InitAddress[%d] should be %q: %v", naddr, kv.V, naddr, want, opt.InitAddress)
 			}
 		}
 	}
@@ -361,14 +441,12 @@ func run(ci any) (res obs.Result) {
 		if isTLS && opt.TLSConfig.ServerName != h {
 			fail("addr", "ServerName %q, expected %q", opt.TLSConfig.ServerName, h)
 		}
-	} else if c.Host == "" || !strings.ContainsAny(c.Host, ":[") { // documented defaults: localhost, port 6379
-		want := c.Host
-		if want == "" {
-			want = "localhost"
+	} else if want := wantAddr(c.Host, c.Host); opt.InitAddress[0] != want { // documented defaults: localhost, port 6379
+		class := "addr"
+		if strings.ContainsAny(c.Host, ":[") { // ":7000", "[::1]": the default host is taken from u.Host as it stands
+			class = "addr-default-host-not-hostname"
 		}
-		if opt.InitAddress[0] != want+":6379" {
-			fail("addr", "InitAddress[0] %q, expected %q", opt.InitAddress[0], want+":6379")
-		}
+		fail(class, "InitAddress[0] %q, expected %q", opt.InitAddress[0], want)
 	}
 	if isTLS {
 		want := false
